@@ -394,7 +394,9 @@ def record_violation(h, res, scenario, cfg, doc, name, detail, prefixes, replay_
             for profile in ("dev", "release"):
                 d64 = f64_eval(h, scenario, cfg, cand, profile)
                 res.replays += 1
-                bad = numeric_failures(d64, [name] if native_confirm is True else prefixes)
+                # facts about the SVD contract (input matrix, tolerance) have no native counterpart: they are
+                # confirmed through any obligation of the property that fails natively for the same inputs
+                bad = numeric_failures(d64, [name] if (native_confirm is True and not name.startswith("SVD.")) else [p for p in prefixes if not p.startswith("SVD")])
                 if native_confirm == "nonfinite":
                     bad = [b for b in bad if not isinstance(b[2], (int, float)) or not isinstance(b[3], (int, float))] or \
                           ([("crash", "", 0, 0)] if d64.get("crash") else [])
